@@ -149,7 +149,7 @@ def plan(run, tier, seed):
     n = 2 if tier == "quick" else 8
     out = [{"kind": "live", "scenario": {"bind": "tcp" if i % 2 == 0 else "unix", "idx": i}, "seed": seed, "tier": tier} for i in range(n)]
     # TLS with the handshake in the worker's main loop (do_handshake_on_connect): peers that fail or abandon the handshake
-    run.require("live_tls_handshake_inputs")
+    run.require("live_tls_handshake_inputs", "live_tls_served_then_lingering_clients")
     out.append({"kind": "live", "scenario": {"tls": True, "bind": "tcp", "idx": n, "n": 27 if tier == "quick" else 180}, "seed": seed, "tier": tier})
     return out
 
@@ -163,6 +163,7 @@ def shard(run, sh):
         r = c05.tls_shard({"kind": "tls", "class": "gthread", "on_connect": True, "n": sc["n"], "seed": sh["seed"], "tier": sh.get("tier", "quick")})
         run.case(("live-tls", sc["n"]))
         run.count("live_tls_handshake_inputs", r.reach.get("tls_inputs", 0))
+        run.count("live_tls_served_then_lingering_clients", r.reach.get("tls_served_then_lingering_clients", 0))
         for mech, summary, case in r.violations:
             run.violation("tls/" + mech.split("/", 1)[-1], summary, {"live": sc})
         for reason in getattr(r, "inconclusive", []) or []:
